@@ -94,8 +94,9 @@ val start_request : cfg -> layer -> request -> coq_Z -> start_result
 val idle_dequeue :
   cfg -> request list -> layer -> event list -> coq_Z -> start_result
 
-val handle_fc :
-  cfg -> layer -> fcpdu -> (layer * event list) option * (layer * event list)
+val handle_fc_active : cfg -> layer -> fcpdu -> layer * event list
+
+val handle_fc : cfg -> layer -> fcpdu -> bool * (layer * event list)
 
 val tx_after_fc : cfg -> layer -> (tx_report, layer * event list) sum
 
